@@ -141,7 +141,7 @@ theorem redirects_flag : ∀ (rs : List Redir) (cwd : String) (r : Bool), flagAl
     | redirect op tgt =>
       cases tgt with
       | none => cases r <;> simp [flatRedirects, ih, Atom.flagOk]
-      | some t => cases r <;> simp [flatRedirects, ih, word_flag t cwd _, Atom.flagOk]
+      | some t => cases r <;> cases hamp : Py.startsWith t.value "&" <;> simp [flatRedirects, ih, word_flag t cwd _, Atom.flagOk, hamp]
     | other _ => simpa [flatRedirects] using ih
 
 theorem casePats_flag : ∀ (ps : List CasePat) (cwd : String) (r : Bool), flagAll r (flatCasePats w ps cwd r) = true
